@@ -56,7 +56,20 @@ func runC09(rc *RunCtx, i int) {
 		rc.Violate(i, "scenario-failed", "", err.Error(), nil)
 		return
 	}
-	e := env.e
+	// a third of the cases also let buffers age past a short MaxBufferedTime while the store is
+	// stalled (time-triggered flushes only add flush requests, so the bound is unchanged)
+	maxBuf := time.Hour
+	if i%3 == 1 {
+		maxBuf = time.Duration(r.Range(15, 60)) * time.Millisecond
+	}
+	cfg09 := env.spec.Config()
+	cfg09.MaxBufferedTime = maxBuf
+	e, err := bs.NewBloomSearchEngine(cfg09, env.w.IMeta, env.w.IData)
+	if err != nil {
+		rc.Violate(i, "scenario-failed", "", err.Error(), nil)
+		return
+	}
+	env.w.Eng[0] = e
 	e.Start()
 	defer env.w.Close()
 	gateKind := core.Pick(r, []string{"CreateFile", "Write", "Close", "Update"})
@@ -73,7 +86,7 @@ func runC09(rc *RunCtx, i int) {
 	per := (trigger + batchRows - 1) / batchRows
 	bound := int64(ingestBuf + 4*per + 2)
 	offers := int(bound) * 20
-	desc := map[string]any{"case": env.w.Case, "ingest_buffer": ingestBuf, "flush_trigger_rows": trigger, "batch_rows": batchRows, "producers": producers, "gate": gateKind, "bound": bound, "offers": offers}
+	desc := map[string]any{"case": env.w.Case, "ingest_buffer": ingestBuf, "flush_trigger_rows": trigger, "batch_rows": batchRows, "producers": producers, "gate": gateKind, "bound": bound, "offers": offers, "max_buffered_time": maxBuf.String()}
 
 	var accepted, answered, maxOut atomic.Int64
 	sample := func() {
@@ -132,6 +145,9 @@ func runC09(rc *RunCtx, i int) {
 				}
 				rowMu.Unlock()
 				ch := make(chan error, 2)
+				if maxBuf < time.Hour {
+					time.Sleep(time.Duration(maxBuf) / 4) // slow producers: buffers age before they fill
+				}
 				ctx, cancel := context.WithTimeout(context.Background(), 80*time.Millisecond)
 				err := e.IngestRows(ctx, rows, ch)
 				cancel()
